@@ -102,7 +102,9 @@ def gen_header(rng, nitems=None, id_style=None, attrs=True):
                 n = rng.choice([0, 3, 31, -1, -17, 1000])
                 idx, idx_txt = f"i{n}", f"[{n}]"
             else:
-                m, l = rng.choice([(7, 0), (0, 7), (31, 16), (-1, -8), (3, 3), (-2, 5), (63, 0)])
+                m, l = rng.choice([(7, 0), (0, 7), (31, 16), (-1, -8), (3, 3), (-2, 5), (63, 0), (0, 1), (-1, 0), (6, 7), (1, 0),
+                                    (rng.randint(-4, 5), rng.randint(-4, 5)), (rng.randint(-4, 5), rng.randint(-4, 5)),
+                                    (2 ** 31 - 1, 0), (0, 2 ** 31 - 2), (-(2 ** 31), -1)])
                 idx, idx_txt = f"r{m}_{l}", rng.choice([f"[{m}:{l}]", f"[{m} : {l}]", f"[ {m}:{l} ]"])
             if attrs and rng.random() < 0.12:
                 tn = rng.choice([b"std_logic_vector", b"STD_ULOGIC", b"integer", b"my_type"])
